@@ -190,6 +190,72 @@ func TestVerifStress(t *testing.T) {
 			fmt.Printf("stress hang: round %d (goroutines=%d setBuf=%d): round did not finish in 120s\n", r, gor, setBufSize)
 			t.Fatal("round timeout")
 		}
+		if r == rounds-1 {
+			// sweep phase: many keys expire together; while the ticker-driven sweep reclaims them, other goroutines
+			// overwrite resident keys, delete expiring ones and read (lock order store shard <-> expiry index)
+			for k := uint64(1000); k < 5000; k++ {
+				v := next.Add(1)
+				valKey.Store(v, k)
+				if c.SetWithTTL(k, v, 1, time.Millisecond) {
+					accepted.Store(v, true)
+				}
+			}
+			c.Wait()
+			var wg2 sync.WaitGroup
+			stop2 := make(chan struct{})
+			var last [8]atomic.Int64
+			for g := 0; g < 8; g++ {
+				wg2.Add(1)
+				go func(g int) {
+					defer wg2.Done()
+					lr := rand.New(rand.NewSource(seed*77 + int64(g)))
+					for {
+						select {
+						case <-stop2:
+							return
+						default:
+						}
+						k := uint64(lr.Intn(40))
+						switch lr.Intn(4) {
+						case 0:
+							v := next.Add(1)
+							valKey.Store(v, k)
+							if c.Set(k, v, 1) {
+								accepted.Store(v, true)
+							}
+						case 1:
+							c.Del(uint64(1000 + lr.Intn(4000)))
+						case 2:
+							c.Get(uint64(1000 + lr.Intn(4000)))
+						default:
+							v := next.Add(1)
+							kk := uint64(1000 + lr.Intn(4000))
+							valKey.Store(v, kk)
+							if c.SetWithTTL(kk, v, 1, time.Duration(1+lr.Intn(3))*time.Millisecond) {
+								accepted.Store(v, true)
+							}
+						}
+						last[g].Store(time.Now().UnixNano())
+					}
+				}(g)
+			}
+			deadline := time.Now().Add(2300 * time.Millisecond)
+			stuck := ""
+			for time.Now().Before(deadline) && stuck == "" {
+				time.Sleep(100 * time.Millisecond)
+				for g := 0; g < 8; g++ {
+					if l := last[g].Load(); l != 0 && time.Since(time.Unix(0, l)) > 1500*time.Millisecond {
+						stuck = fmt.Sprintf("goroutine %d has not completed a call for %v during the expiry sweep", g, time.Since(time.Unix(0, l)))
+					}
+				}
+			}
+			close(stop2)
+			if stuck != "" {
+				fmt.Printf("stress hang: round %d (sweep phase): %s\n", r, stuck)
+				t.Fatalf("hang: %s", stuck)
+			}
+			wg2.Wait()
+		}
 		close(stopWatch)
 		c.Close()
 		if withCb {
